@@ -318,6 +318,25 @@ theorem doTx_keeps_conservation (e : Env) (s : St) (lh : Int) (i : Nat) (pending
 -- non-vacuity of the table lemmas on a concrete table
 example : sumU (put (del [((0, 0), ⟨"u0", 5, 0⟩), ((0, 1), ⟨"u1", 7, 0⟩)] (0, 0)) (3, 0) ⟨"u2", 5, 0⟩) = 12 := by decide
 
+/-!
+## Conservation over whole histories (reachable-state invariants)
+
+What follows carries the single-transaction theorems above to histories. Outline:
+
+* `undoTx_sum`, `undoPayFee_sum` — what undo does to `Σ U` and the total, for a transaction whose effects are present (`Applied`).
+* `PoolInv` (one row per key, distinct pool ids, no pending coinbase, pending inputs spent, `Σ U + pending fees = total`)
+  is kept by `doTx_PoolInv`, `playForMiner_PoolInv`, `todoBlock_conservation`; `submitAll_PoolInv` for submission histories.
+* `balance_is_sum` — balances partition the table.
+* `PoolLive` — the strong pool invariant (`XV.Lemmas.InvLive`), needed to *undo* pending transactions; kept by
+  `doTx_PoolLive`, `playForMiner_PoolLive`, `play_PoolLive` (eviction + block); `rollback_LiveSum` (step 1 of `walk`).
+  Rows of unknown origin are allowed in the table; freshness of ids is an explicit hypothesis (`Fresh`).
+* `Ledger` — the reachable-state invariant (`XV.Lemmas.InvLedger`): the table is completely explained by a ghost log of
+  confirmed transactions plus the pool. Freshness / causality become *consequences*. Kept by `doTx_Ledger`, `play_Ledger`,
+  `playForMiner_Ledger`, `undoBlock_Ledger`, `todoBlock_Ledger`, `walk_Ledger`, starting from `Ledger_genesis`;
+  `Ledger.invariants` lists what it gives (conservation, supply = confirmed coinbase outputs, no double spend on chain or
+  pending, balances). `play_walk_conservation_refuted` shows that the block-validity hypotheses cannot be dropped.
+-/
+
 -- ================================================================ undo sums (conservation carried to whole histories)
 
 /-- sum of the amounts cited by a list of inputs -/
@@ -1705,10 +1724,24 @@ theorem doTx_Ledger (e : Env) (s : St) (lh : Int) (i : Nat) (C : List Nat) (h : 
     exact LedSum.congr this rfl rfl
   · rw [XV.C05.doTx_fail_noop e s lh i hok]; exact h
 
+theorem order_weaken (e : Env) (P txs : List Nat) (h : txs.Pairwise (fun a b => ∀ r ∈ (e.tx a).ins, r.tx ≠ b)) :
+    txs.Pairwise (fun a b => b ∈ P → ∀ r ∈ (e.tx a).ins, r.tx ≠ b) := by
+  induction txs with
+  | nil => exact List.Pairwise.nil
+  | cons a r ih =>
+    simp only [List.pairwise_cons] at h
+    exact List.Pairwise.cons (fun b hb _ => h.1 b hb) (ih h.2)
+
+theorem order_nil (e : Env) (txs : List Nat) :
+    txs.Pairwise (fun a b => b ∈ ([] : List Nat) → ∀ r ∈ (e.tx a).ins, r.tx ≠ b) := by
+  induction txs with
+  | nil => exact List.Pairwise.nil
+  | cons a r ih => exact List.Pairwise.cons (fun b _ hb => by cases hb) ih
+
 /-- **the transactions of a block keep the ledger invariant**: the block's transactions join the confirmed log in block
 order; the pending ones among them leave the pool. Hypotheses: ids pairwise distinct, `e.tx i` has id `i`, none already
 confirmed; a new coinbase has no inputs and no fee; the block is valid on the chain alone — it contains the pending
-transactions its transactions cite (`hparents`) and no transaction cites a later one of the block (`hord`). -/
+transactions its transactions cite (`hparents`) and no transaction cites a later *pending* one of the block (`hord`). -/
 theorem blockRun_LedSum (e : Env) (lh : Int) (prop : String) (isPool : Nat → Bool) (txs : List Nat) (s s2 : St)
     (C P : List Nat) (hrun : blockRun e lh prop isPool txs s s2) (h : LedSum e s C P)
     (hnd : txs.Nodup) (hid : ∀ i ∈ txs, (e.tx i).id = i)
@@ -1717,7 +1750,7 @@ theorem blockRun_LedSum (e : Env) (lh : Int) (prop : String) (isPool : Nat → B
     (haward : ∀ i ∈ txs, isPool i = false → (e.tx i).coinbase = true →
       (e.tx i).ins = [] ∧ feeOf (e.tx i).outs = 0)
     (hparents : ∀ i ∈ txs, ∀ r ∈ (e.tx i).ins, r.tx ∈ P → r.tx ∈ txs)
-    (hord : txs.Pairwise (fun a b => ∀ r ∈ (e.tx a).ins, r.tx ≠ b)) :
+    (hord : txs.Pairwise (fun a b => b ∈ P → ∀ r ∈ (e.tx a).ins, r.tx ≠ b)) :
     LedSum e s2 (C ++ txs) (P.filter (fun x => !txs.contains x)) := by
   induction txs generalizing s C P with
   | nil =>
@@ -1738,7 +1771,7 @@ theorem blockRun_LedSum (e : Env) (lh : Int) (prop : String) (isPool : Nat → B
         intro r hr hrP
         rcases List.mem_cons.mp (hparents i List.mem_cons_self r hr hrP) with h1 | h1
         · exact h.led.noSelf i (List.mem_append_right _ hiP) r hr h1
-        · exact hord.1 r.tx h1 r hr rfl
+        · exact hord.1 r.tx h1 hrP r hr rfl
       simp only [hp, ↓reduceIte] at hrun
       have hstep := LedSum_confirmPending e s prop C P i h hiP hnp
       have hmemP' : ∀ x, x ∈ P.filter (fun x => x != i) ↔ x ∈ P ∧ x ≠ i := by
@@ -1757,7 +1790,8 @@ theorem blockRun_LedSum (e : Env) (lh : Int) (prop : String) (isPool : Nat → B
           rcases List.mem_cons.mp (hparents j (List.mem_cons_of_mem _ hj) r hr h1) with h3 | h3
           · exact absurd h3 h2
           · exact h3)
-        hord.2
+        (List.Pairwise.imp (R := fun a b => b ∈ P → ∀ r ∈ (e.tx a).ins, r.tx ≠ b)
+          (fun hab hb => hab ((hmemP' _).mp hb).1) hord.2)
       have hfil : (P.filter (fun x => x != i)).filter (fun x => !rest.contains x) =
           P.filter (fun x => !(i :: rest).contains x) := by
         rw [List.filter_filter]
@@ -1779,7 +1813,7 @@ theorem blockRun_LedSum (e : Env) (lh : Int) (prop : String) (isPool : Nat → B
         intro r hr hrP
         rcases List.mem_cons.mp (hparents i List.mem_cons_self r hr hrP) with h1 | h1
         · exact hiP (h1 ▸ hrP)
-        · exact hord.1 r.tx h1 r hr rfl
+        · exact hord.1 r.tx h1 hrP r hr rfl
       simp only [hp, Bool.false_eq_true, ↓reduceIte] at hrun
       have hstep := LedSum_confirmNew e s lh prop C P i h hnot (hid i List.mem_cons_self) hrun.1
         (haward i List.mem_cons_self hp') hnp
@@ -1922,7 +1956,7 @@ theorem play_Ledger (e : Env) (s : St) (lh : Int) (b : Block) (C : List Nat) (h 
             decide_true, Bool.true_eq_false] at hp
         exact haward i hi hnp)
       (fun i hi r hr hrL => hparents i hi r hr ((hL1mem r.tx).mp hrL).1)
-      hord
+      (order_weaken e _ b.txs hord)
     have hpool : s.pool.filter (fun i => !b.txs.contains i && !(playEvict e s b).contains i) =
         (s.pool.filter (fun x => !(s.pool.reverse.filter (fun i => (playEvict e s b).contains i)).contains x)).filter
           (fun x => !b.txs.contains x) := by
@@ -1965,7 +1999,7 @@ theorem playForMiner_Ledger (e : Env) (s : St) (lh : Int) (b : Block) (C : List 
           · intro hp; simp [h.poolNonCoinbase i hp])
         hnewC
         (fun i hi _ hc => haward i hi hc)
-        hparents hord
+        hparents (order_weaken e _ b.txs hord)
       exact LedSum.congr this rfl rfl
 
 theorem undoFold_pool (e : Env) (rtxs : List Nat) (s : St) :
@@ -2026,8 +2060,7 @@ theorem undoBlock_Ledger (e : Env) (s : St) (b : Block) (prune : Bool) (C0 : Lis
 theorem todoBlock_Ledger (e : Env) (s s' : St) (lh : Int) (b : Block) (C : List Nat)
     (hs : todoBlock e s lh b = some s') (h : Ledger e s C) (hp : s.pool = [])
     (hnd : b.txs.Nodup) (hid : ∀ i ∈ b.txs, (e.tx i).id = i) (hnewC : ∀ i ∈ b.txs, i ∉ C)
-    (haward : ∀ i ∈ b.txs, (e.tx i).coinbase = true → (e.tx i).ins = [] ∧ feeOf (e.tx i).outs = 0)
-    (hord : b.txs.Pairwise (fun a b => ∀ r ∈ (e.tx a).ins, r.tx ≠ b)) :
+    (haward : ∀ i ∈ b.txs, (e.tx i).coinbase = true → (e.tx i).ins = [] ∧ feeOf (e.tx i).outs = 0) :
     Ledger e s' (C ++ b.txs) ∧ s'.pool = [] := by
   unfold todoBlock at hs
   split at hs
@@ -2042,7 +2075,8 @@ theorem todoBlock_Ledger (e : Env) (s s' : St) (lh : Int) (b : Block) (C : List 
       rw [hp] at h
       have := blockRun_LedSum e lh b.prop _ b.txs s s2 C [] hrun h hnd hid
         (fun i _ => by simp) hnewC (fun i hi _ hc => haward i hi hc)
-        (fun i _ r _ hr => by cases hr) hord
+        (fun i _ r _ hr => by cases hr)
+        (order_nil e b.txs)
       have hp2 : s2.pool = [] := by rw [fpool, hp]
       unfold Ledger
       simp only [hp2]
@@ -2089,14 +2123,13 @@ theorem undoAll_Ledger (e : Env) (prune : Bool) (undo : List Nat) (st : St) (C0 
       obtain ⟨h1, h2⟩ := undoBlock_Ledger e st (e.block bi) prune _ h hp
       exact ih _ h1 h2
 
-/-- step 3 of `walk`: the blocks to apply carry transactions with pairwise distinct ids not yet confirmed, each block is
-in citation order, a coinbase has no inputs and no fee -/
+/-- step 3 of `walk`: the blocks to apply carry transactions with pairwise distinct ids not yet confirmed, a coinbase has
+no inputs and no fee (that no transaction cites a later one of its block follows from admission here: the pool is empty) -/
 theorem todoAll_Ledger (e : Env) (lh : Int) (todo : List Nat) (st : St) (C : List Nat)
     (h : Ledger e st C) (hp : st.pool = [])
     (hnd : (C ++ blockTxs e todo).Nodup)
     (hblk : ∀ bi ∈ todo, (∀ i ∈ (e.block bi).txs, (e.tx i).id = i) ∧
-      (∀ i ∈ (e.block bi).txs, (e.tx i).coinbase = true → (e.tx i).ins = [] ∧ feeOf (e.tx i).outs = 0) ∧
-      (e.block bi).txs.Pairwise (fun a b => ∀ r ∈ (e.tx a).ins, r.tx ≠ b)) :
+      (∀ i ∈ (e.block bi).txs, (e.tx i).coinbase = true → (e.tx i).ins = [] ∧ feeOf (e.tx i).outs = 0)) :
     ∃ C', Ledger e (walk.todoAll e lh todo st).1 C' ∧ (walk.todoAll e lh todo st).1.pool = [] ∧
       ((walk.todoAll e lh todo st).2 = true → C' = C ++ blockTxs e todo) := by
   induction todo generalizing st C with
@@ -2106,7 +2139,7 @@ theorem todoAll_Ledger (e : Env) (lh : Int) (todo : List Nat) (st : St) (C : Lis
   | cons bi rest ih =>
     unfold walk.todoAll
     rw [blockTxs_cons] at hnd ⊢
-    obtain ⟨b1, b2, b3⟩ := hblk bi List.mem_cons_self
+    obtain ⟨b1, b2⟩ := hblk bi List.mem_cons_self
     cases htb : todoBlock e st lh (e.block bi) with
     | none => exact ⟨C, h, hp, by simp⟩
     | some st' =>
@@ -2114,7 +2147,7 @@ theorem todoAll_Ledger (e : Env) (lh : Int) (todo : List Nat) (st : St) (C : Lis
       obtain ⟨hndC, hndR, hdis⟩ := List.nodup_append.mp hnd
       obtain ⟨t1, t2⟩ := todoBlock_Ledger e st st' lh (e.block bi) C htb h hp
         (List.nodup_append.mp hndR).1 b1
-        (fun i hi hc => hdis i hc i (List.mem_append_left _ hi) rfl) b2 b3
+        (fun i hi hc => hdis i hc i (List.mem_append_left _ hi) rfl) b2
       obtain ⟨C', c1, c2, c3⟩ := ih st' (C ++ (e.block bi).txs) t1 t2 (by rw [List.append_assoc]; exact hnd)
         (fun bj hbj => hblk bj (List.mem_cons_of_mem _ hbj))
       exact ⟨C', c1, c2, fun hok => by rw [c3 hok, List.append_assoc]⟩
@@ -2142,14 +2175,12 @@ theorem readmit_Ledger (e : Env) (lh : Int) (pool : List Nat) (st : St) (C : Lis
 
 /-- **`walk` keeps the ledger invariant**, whatever its outcome (refused undo, failing block, success): the pool is rolled
 back, the blocks that end the confirmed log are undone (`hundo` ties the ghost log to the blocks `walk` undoes), the
-blocks of the new branch are applied (`hnd`, `hblk`: distinct ids not confirmed below the fork, citation order, award
-shape), the pool is re-submitted (`hre`: a pending transaction that the new branch confirms has an input). -/
+blocks of the new branch are applied (`hnd`, `hblk`: distinct ids not confirmed below the fork, award shape), the pool is re-submitted (`hre`: a pending transaction that the new branch confirms has an input). -/
 theorem walk_Ledger (e : Env) (s : St) (lh : Int) (dest : Nat) (prune : Bool) (C C0 : List Nat) (h : Ledger e s C)
     (hundo : C = C0 ++ blockTxs e (undoTodo e s.pointer dest).1.reverse)
     (hnd : (C0 ++ blockTxs e (undoTodo e s.pointer dest).2).Nodup)
     (hblk : ∀ bi ∈ (undoTodo e s.pointer dest).2, (∀ i ∈ (e.block bi).txs, (e.tx i).id = i) ∧
-      (∀ i ∈ (e.block bi).txs, (e.tx i).coinbase = true → (e.tx i).ins = [] ∧ feeOf (e.tx i).outs = 0) ∧
-      (e.block bi).txs.Pairwise (fun a b => ∀ r ∈ (e.tx a).ins, r.tx ≠ b))
+      (∀ i ∈ (e.block bi).txs, (e.tx i).coinbase = true → (e.tx i).ins = [] ∧ feeOf (e.tx i).outs = 0))
     (hre : ∀ i ∈ s.pool, i ∈ C0 ++ blockTxs e (undoTodo e s.pointer dest).2 → (e.tx i).ins ≠ []) :
     ∃ C', Ledger e (walk e s lh dest prune).1 C' ∧
       ((walk e s lh dest prune).2 = true → C' = C0 ++ blockTxs e (undoTodo e s.pointer dest).2) := by
@@ -2333,8 +2364,7 @@ theorem walk_PoolInv (e : Env) (s : St) (lh : Int) (dest : Nat) (prune : Bool) (
     (hundo : C = C0 ++ blockTxs e (undoTodo e s.pointer dest).1.reverse)
     (hnd : (C0 ++ blockTxs e (undoTodo e s.pointer dest).2).Nodup)
     (hblk : ∀ bi ∈ (undoTodo e s.pointer dest).2, (∀ i ∈ (e.block bi).txs, (e.tx i).id = i) ∧
-      (∀ i ∈ (e.block bi).txs, (e.tx i).coinbase = true → (e.tx i).ins = [] ∧ feeOf (e.tx i).outs = 0) ∧
-      (e.block bi).txs.Pairwise (fun a b => ∀ r ∈ (e.tx a).ins, r.tx ≠ b))
+      (∀ i ∈ (e.block bi).txs, (e.tx i).coinbase = true → (e.tx i).ins = [] ∧ feeOf (e.tx i).outs = 0))
     (hre : ∀ i ∈ s.pool, i ∈ C0 ++ blockTxs e (undoTodo e s.pointer dest).2 → (e.tx i).ins ≠ []) :
     PoolInv e (walk e s lh dest prune).1 := by
   obtain ⟨C', c1, _⟩ := walk_Ledger e s lh dest prune C C0 h hundo hnd hblk hre
